@@ -372,10 +372,9 @@ impl<'a> Cluster<'a> {
 
     /// The node is stopped and comes back on its other address (same storage, same node id).
     pub fn move_node(&mut self, node: u8) {
-        let was_up = self.shared.borrow().up.contains(&node);
-        if was_up {
-            self.crash(node);
-        }
+        // the host is stopped whether or not the node on it has finished starting (a node still
+        // scanning its store is not "up" yet, but it is running)
+        self.crash(node);
         let cur = self.host_of(node);
         let next = if cur == host_name(node) { alt_host_name(node) } else { host_name(node) };
         let ip = self.sim.lookup(next.clone());
